@@ -10,7 +10,7 @@
    This file contains only statements closed by `exact`, their assumptions and non-vacuity examples.
    Generated once by tools/genprops.py from the proved lemmas (statements restated verbatim). *)
 From Coq Require Import List NArith ZArith Bool Lia Sorting.Permutation.
-From Viv Require Import Base.Assoc Base.Tree Model.Paths Model.Steps Model.Struct Model.StructC Proofs.Struct_proofs Proofs.Consistent_proofs Proofs.MoveP_proofs Proofs.Consistent2_proofs.
+From Viv Require Import Base.Assoc Base.Tree Model.Paths Model.Steps Model.Struct Model.StructC Proofs.Struct_proofs Proofs.Consistent_proofs Proofs.MoveP_proofs Proofs.Consistent2_proofs Proofs.Sched_entry_proofs.
 Import ListNotations.
 
 (* after an update no registered process lies under a path it deleted: nothing deleted (or moved away under its old path) is ever polled again *)
@@ -484,6 +484,37 @@ Theorem C10_k6_tables_consistent_publication_stale :
            In ([10%N; 21%N; kFst2], [[Dn kFst]]) (pub_flow b') /\ cget t' [10%N; 21%N; kFst2] = None.
 Proof. exact @k6_tables_consistent_publication_stale. Qed.
 Print Assumptions C10_k6_tables_consistent_publication_stale.
+
+(* newly created processes start at the time of their creation (scheduler model: a registered process without a front entry is invoked, if at all, for an interval starting at the current global time) *)
+Theorem C10_new_process_starts_now :
+  forall (Sg U W : Type) (poll : W -> Sched.pid -> Sg -> Z * W)
+           (cond : W -> Sched.pid -> Z -> Sg -> bool * W) (next : W -> Sched.pid -> Z -> Sg -> U * W)
+           (commit : Sg -> list Sched.pid -> list (Sched.pid * U) -> Sg * list Sched.pid)
+           (vr : Sched.variant) (ee : option Z) (endt : Z) (force : bool) 
+           (et : Z) (s s' : Sched.st Sg U W) (f' : bool) (et' : Z) (ok : bool) 
+           (p : Sched.pid) (start fin ts req now : Z) (view : Sg),
+         NoDup (Sched.procs Sg U W s) ->
+         Sched.iter Sg U W poll cond next commit vr ee endt force et s = (s', f', et', ok) ->
+         Sched.mem p (Sched.procs Sg U W s) = true ->
+         Sched.flook U (Sched.frt Sg U W s) p = None ->
+         In (Sched.EInvoke Sg p start fin ts req now view) (Sched.log Sg U W s') ->
+         ~ In (Sched.EInvoke Sg p start fin ts req now view) (Sched.log Sg U W s) ->
+         start = Sched.gt Sg U W s /\ now = Sched.gt Sg U W s.
+Proof. exact @new_process_starts_now. Qed.
+Print Assumptions C10_new_process_starts_now.
+
+(* a deleted process leaves no schedule entry behind, whatever it had in flight: a process created again under its path starts afresh *)
+Theorem C10_deleted_process_front_dropped :
+  forall (Sg U W : Type) (poll : W -> Sched.pid -> Sg -> Z * W)
+           (cond : W -> Sched.pid -> Z -> Sg -> bool * W) (next : W -> Sched.pid -> Z -> Sg -> U * W)
+           (commit : Sg -> list Sched.pid -> list (Sched.pid * U) -> Sg * list Sched.pid)
+           (vr : Sched.variant) (ee : option Z) (endt : Z) (force : bool) 
+           (et : Z) (s s' : Sched.st Sg U W) (f' : bool) (et' : Z) (ok : bool) 
+           (p : Sched.pid),
+         Sched.iter Sg U W poll cond next commit vr ee endt force et s = (s', f', et', ok) ->
+         Sched.mem p (Sched.procs Sg U W s) = false -> Sched.flook U (Sched.frt Sg U W s') p = None.
+Proof. exact @deleted_process_front_dropped. Qed.
+Print Assumptions C10_deleted_process_front_dropped.
 
 
 (* ---- non-vacuity on the concrete kit (Model/StructC.v) ---- *)
